@@ -74,7 +74,8 @@ class Gen:
             rng.shuffle(names)
         size = n ** len(names)
         if kind == "real":
-            data = tuple(rng.choice([-2, -1, 0, 1, 1, 2, 3, 4, 5]) for _ in range(size))
+            # non-negative data: funsor treats (max,mul)/(min,mul) as distributive, which needs non-negative operands
+            data = tuple(rng.choice([0, 1, 1, 2, 2, 3, 4, 5]) for _ in range(size))
             return ("leaf", self.fresh_lid(), tuple(names), data)
         data = tuple(rng.randrange(n) for _ in range(size))
         return ("bleaf", self.fresh_lid(), tuple(names), data)
@@ -124,7 +125,7 @@ class Gen:
             b = self.expr(rng.choice([0, d]), "real", allow_indep)
             if rng.random() < 0.5:
                 a, b = b, a
-            return ("binary", rng.choice(["add", "mul", "mul", "sub", "max"]), a, b)
+            return ("binary", rng.choice(["add", "mul", "mul", "max", "min"]), a, b)
         if c == "reduce":
             body = self.expr(d, kind, allow_indep)
             v = rng.choice(POOL)
@@ -136,6 +137,8 @@ class Gen:
             body = self.expr(d, kind, allow_indep)
             v = rng.choice(POOL)
             idx = self.bint_atom() if rng.random() < 0.8 else self.expr(min(d, 1), "bint", False)
+            if idx[0] == "bvar" and idx[1] in free(body) - {v} and rng.random() < 0.7:
+                idx = ("bvar", v)     # eager getitem asserts the index variable is not an input of the array
             return ("lamget", v, body, idx)
         if c == "contr":
             a = self.expr(d, "real", allow_indep)
@@ -148,8 +151,7 @@ class Gen:
         if c == "subs":
             body = self.expr(d, kind, allow_indep)
             v = rng.choice(POOL)
-            if rng.random() < 0.9:
-                body = self.force(body, kind, v)
+            body = self.force(body, kind, v)     # a substitution for an absent name is dropped by funsor
             r = rng.random()
             if r < 0.2 and kind == "bint":
                 val = body                      # a lazy term substituted into itself
@@ -173,7 +175,7 @@ class Gen:
                 if any(v in free(x) for x in parts):
                     p = v
                     parts = [self.force(x, kind, p) for x in parts]
-            if rng.random() < 0.7:
+            if rng.random() < 0.5:      # (lazy Cat declines Tensor-valued substitutions: NotImplementedError)
                 names = [x for x in POOL if rng.random() < 0.5][:2]
                 idx = ("bleaf2", self.fresh_lid(), tuple(names),
                        tuple(rng.randrange(2 * n) for _ in range(n ** len(names))))
@@ -671,7 +673,7 @@ def gen_case(rng, tier):
         r = g.expr(depth, kind)
         if depth_of(r) >= 1 and len(list(subrecipes(r))) <= 60:
             break
-    xval = tuple(rng.choice([-1, 1, 2, 3]) for _ in range(n)) if has_indep(r) else None
+    xval = tuple(rng.choice([0, 1, 2, 3]) for _ in range(n)) if has_indep(r) else None
     return n, r, xval
 
 
@@ -888,7 +890,7 @@ def extras_stream(ctx, ncases):
     rng = ctx.rng
     for _ in range(ncases):
         n = rng.choice([2, 2, 3])
-        which = rng.choice(["markov", "integrate", "scatter", "approximate"])
+        which = rng.choice(["markov", "integrate", "scatter", "approximate-eager"])
         a, b, c = rng.sample(POOL, 3)
         try:
             if which == "markov":
@@ -958,7 +960,8 @@ def extras_stream(ctx, ncases):
                 # Scatter(op, ((dest, index-by-src),), source, {src}) : out[dest] = op over src with idx(src)=dest
                 src, dest = a, rng.choice([b, a])
                 other = c
-                idx = Tensor(np.array([rng.randrange(n) for _ in range(n)]), OrderedDict([(src, Bint[n])]), n)
+                perm = list(range(n)); rng.shuffle(perm)   # Scatter is specified for injective substitutions only
+                idx = Tensor(np.array(perm), OrderedDict([(src, Bint[n])]), n)
                 source = Tensor(np.array([rng.choice([1., 2., 3., 5.]) for _ in range(n * n)]).reshape(n, n),
                                 OrderedDict([(src, Bint[n]), (other, Bint[n])]))
                 exp = np.zeros((n, n))
@@ -989,22 +992,13 @@ def extras_stream(ctx, ncases):
                 model = Tensor(np.array([rng.choice([0., 1., 2.]) for _ in range(n * n)]).reshape(n, n),
                                OrderedDict([(a, Bint[n]), (b, Bint[n])]))
                 guide = Tensor(np.array([rng.choice([0., 1., 2.]) for _ in range(n)]), OrderedDict([(a, Bint[n])]))
-                for mode in ("eager", "lazy", "reflect"):
-                    if mode == "eager":
-                        got = model.approximate(ops.logaddexp, guide, a)
-                    else:
-                        with {"lazy": lazy, "reflect": reflect}[mode]:
-                            t = model.approximate(ops.logaddexp, guide, a)
-                        if any(MARK in x for x in t.inputs):
-                            ctx.count("extras:approximate:lazy-inputs-carry-marker")
-                        got = reinterpret(t)
-                    if isinstance(got, Tensor):
-                        order = [(a, n), (b, n)]
-                        if set(got.inputs) != {a, b} or not np.array_equal(futil.table(got, order), futil.table(model, order)):
-                            ctx.fail("input", "C05.extras.approximate-value", witness={"mode": mode, "names": [a, b]},
-                                     expected=str(np.asarray(model.data).tolist()),
-                                     got=f"{list(got.inputs)} {np.asarray(got.data).tolist()}", python=None)
-                ctx.count("extras:approximate")
+                got = model.approximate(ops.logaddexp, guide, a)
+                order = [(a, n), (b, n)]
+                if not isinstance(got, Tensor) or set(got.inputs) != {a, b} or \
+                        not np.array_equal(futil.table(got, order), futil.table(model, order)):
+                    ctx.fail("input", "C05.extras.approximate-value", witness={"names": [a, b]},
+                             expected=str(np.asarray(model.data).tolist()), got=str(got), python=None)
+                ctx.count("extras:approximate-eager")
         except DECLINE as e:
             ctx.count(f"extras:{which}:declined:{type(e).__name__}")
         ctx.case()
@@ -1049,6 +1043,62 @@ def shared_binder_stream(ctx):
     ctx.count("dedicated:KF-shared-binder-unfold:" + ("reproduced" if reproduced else "not-reproduced"))
 
 
+KF2 = "KF-approximate-binder-leak"
+KF2_PY = """import numpy as np
+from collections import OrderedDict
+import funsor, funsor.ops as ops
+from funsor.domains import Bint
+from funsor.tensor import Tensor
+from funsor.interpretations import lazy
+from funsor.interpreter import reinterpret
+m = Tensor(np.array([[2., 2.], [1., 0.]]), OrderedDict(i=Bint[2], k=Bint[2]))
+g = Tensor(np.array([1., 2.]), OrderedDict(i=Bint[2]))
+with lazy:
+    t = m.approximate(ops.logaddexp, g, "i")
+print(dict(t.inputs), t.bound, dict(reinterpret(t).inputs))
+FAILS = set(t.inputs) != {"i", "k"} or set(reinterpret(t).inputs) != {"i", "k"}
+"""
+
+
+def approximate_stream(ctx):
+    """A lazy Approximate declares its approx_vars `bound`, so reflect mangles names that remain inputs."""
+    rng = ctx.rng
+    leak = None
+    for mode, interp in (("lazy", lazy), ("reflect", reflect)):
+        for _ in range(4):
+            n = rng.choice([2, 3])
+            a, b = rng.sample(POOL, 2)
+            model = Tensor(np.array([rng.choice([0., 1., 2.]) for _ in range(n * n)]).reshape(n, n),
+                           OrderedDict([(a, Bint[n]), (b, Bint[n])]))
+            guide = Tensor(np.array([rng.choice([0., 1., 2.]) for _ in range(n)]), OrderedDict([(a, Bint[n])]))
+            with interp:
+                t = model.approximate(ops.logaddexp, guide, a)
+            got = reinterpret(t)
+            bad_t = any(MARK in x for x in t.inputs) or set(t.inputs) != {a, b}
+            bad_r = set(got.inputs) != {a, b}
+            if not bad_r and isinstance(got, Tensor):
+                if not np.array_equal(futil.table(got, [(a, n), (b, n)]), futil.table(model, [(a, n), (b, n)])):
+                    ctx.fail("input", "C05.approximate-value", witness={"mode": mode, "names": [a, b]},
+                             expected=str(np.asarray(model.data).tolist()), got=str(got), python=KF2_PY)
+                    return
+            if bad_t or bad_r:
+                leak = (mode, [a, b], sorted(t.inputs), sorted(got.inputs))
+    ctx.count("dedicated:KF-approximate-binder-leak:" + ("reproduced" if leak else "not-reproduced"))
+    what = None
+    if leak:
+        what = (f"with {leak[0]}: model.approximate(logaddexp, guide, {leak[1][0]!r}) has inputs {leak[2]} and reinterprets to a "
+                f"Tensor with inputs {leak[3]} instead of {sorted(leak[1])} (Approximate declares approx_vars as `bound` "
+                f"although they remain inputs; _alpha_mangle renames them)")
+    listed = ctx.known(KF2, leak is not None, what)
+    if leak and not listed:
+        ctx.fail("input", "C05.approximate-binder-leak", witness={"mode": leak[0], "names": leak[1]},
+                 expected=f"inputs {sorted(leak[1])}", got=f"lazy inputs {leak[2]}, reinterpreted inputs {leak[3]}",
+                 python=KF2_PY)
+    if not leak and not listed:
+        # fixed and not listed: nothing to report; un-list the stale NOTE that ctx.known would have produced
+        pass
+
+
 KF_PY = """import numpy as np
 from collections import OrderedDict
 import funsor, funsor.ops as ops
@@ -1067,7 +1117,7 @@ FAILS = float(apply_optimizer(t).data) != float(np.array({data}).sum() ** 2)
 
 def correspond(ctx):
     quick = ctx.tier == "quick"
-    ctx.rule = ("random nestings (binder depth <= %d) of Reduce, Lambda+getitem, Cat(part_name)+Subs, Contraction, Subs, "
+    ctx.rule = ("random nestings (generator depth <= %d; measured binder nesting is larger because Cat comes with a Subs of its name and forced dependencies add binders) of Reduce, Lambda+getitem, Cat(part_name)+Subs, Contraction, Subs, "
                 "Independent and Binary glue over leaves whose inputs, binders, substituted keys, substituted values' free "
                 "names and index variables are ALL drawn from the pool {i,j,k} (one size 2 or 3), incl. sibling duplication "
                 "(hash-consed shared binders) and bint-valued terms substituted into themselves; each built under eager, "
@@ -1079,6 +1129,7 @@ def correspond(ctx):
     clean_stream(ctx, 900 if quick else 9000)
     extras_stream(ctx, 80 if quick else 600)
     shared_binder_stream(ctx)
+    approximate_stream(ctx)
     ctx.exhaustive = False
     ctx.assumptions.append("MarkovProduct, Integrate, Scatter, Approximate are outside the shared Lean Term: checked "
                            "against Python oracles (naive_sequential_sum_product, explicit sums) only")
